@@ -1,8 +1,9 @@
 #!/bin/bash
-# usage: tools/seed_confirm.sh <Cxx> <A|B>  -- confirms a sub-agent's seeded change in its scratch worktree and files it under /verif/seeded/
+# usage: tools/seed_confirm.sh <workdir-id> <A|B> [<save-as, e.g. C01-C>]  -- confirms a sub-agent's seeded change in its
+# scratch worktree /tmp/mut/<workdir-id> (deliverables in /tmp/mut/<workdir-id>-out) and files it under /verif/seeded/<save-as>
 set -u
 export GOFLAGS=-mod=mod GOPROXY=off GOSUMDB=off GOTOOLCHAIN=local
-ID="$1"; L="$2"; W=/tmp/mut/$ID; O=/tmp/mut/$ID-out
+ID="$1"; L="$2"; SAVE="${3:-$1-$2}"; PROP="${SAVE%%-*}"; W=/tmp/mut/$ID; O=/tmp/mut/$ID-out
 PATCH=$O/$L.diff; DEMO=$O/${L}_demo_test.go
 [ -f "$PATCH" ] && [ -f "$DEMO" ] || { echo "missing $PATCH or $DEMO"; exit 2; }
 cd $W || exit 2
@@ -25,11 +26,11 @@ go test -vet=off -count=1 -run "^($TESTS)\$" ./$DIR/ > /tmp/sc.$$.3 2>&1; MUT_DE
 rm -f "$DIR/zz_seed_demo_test.go"
 git diff > /tmp/sc.$$.diff
 git reset -q --hard; git clean -fdq
-echo "$ID-$L: demo_on_pristine_exit=$PRISTINE_DEMO build=$BUILD suite_with_change_exit=$SUITE demo_with_change_exit=$MUT_DEMO dir=$DIR tests=$TESTS"
+echo "$SAVE: demo_on_pristine_exit=$PRISTINE_DEMO build=$BUILD suite_with_change_exit=$SUITE demo_with_change_exit=$MUT_DEMO dir=$DIR tests=$TESTS"
 if [ $PRISTINE_DEMO -eq 0 ] && [ $BUILD -eq 0 ] && [ $SUITE -eq 0 ] && [ $MUT_DEMO -ne 0 ]; then
-  D=/verif/seeded/$ID-$L; mkdir -p $D
+  D=/verif/seeded/$SAVE; mkdir -p $D
   cp /tmp/sc.$$.diff $D/patch.diff; cp "$DEMO" $D/demo_test.go
-  python3 - "$ID" "$L" "$DIR" "$TESTS" "$O/NOTES.md" "$D" <<'PY'
+  python3 - "$PROP" "$L" "$DIR" "$TESTS" "$O/NOTES.md" "$D" <<'PY'
 import json,sys,re
 pid,l,d,tests,notes,out=sys.argv[1:]
 txt=open(notes).read() if notes else ''
